@@ -299,6 +299,22 @@ pub fn gen_session(seed: u64, run: u64, thorough: bool) -> Session {
         }));
     }
     ops.push(PlannedOp::new(Op::Barrier));
+    // One on-disk session in three: the disk changes while the server is inside one of its own
+    // loads (DESIGN §2.8). Whatever happens to the files, the open documents are the editor's.
+    let mut midload = Vec::new();
+    if on_disk && brng.chance(1, 3) {
+        for _ in 0..brng.range(1, 2) {
+            let k = brng.range(1, 40) as u64;
+            let path = brng.pick(&["gleam.toml", "src/d0.gleam", "src/d1.gleam", "src/other.gleam"]).to_string();
+            let d = match brng.below(5) {
+                0 => crate::lsp::DiskOp::Fifo { path },
+                1 | 2 => crate::lsp::DiskOp::Remove { path },
+                3 => crate::lsp::DiskOp::Write { path, text: "name = \"proj\"\n".into() },
+                _ => crate::lsp::DiskOp::RemoveDir { path: "src".into() },
+            };
+            midload.push((k, d));
+        }
+    }
     Session {
         property: "C13".into(),
         seed,
@@ -312,7 +328,7 @@ pub fn gen_session(seed: u64, run: u64, thorough: bool) -> Session {
         tree,
         ops,
         crashes: Vec::new(),
-        midload: Vec::new(),
+        midload,
         midload_at: Vec::new(),
         decisions: None,
         hold: None,
